@@ -229,3 +229,9 @@ Proof.
   intros H1 H2 H3. rewrite updN2_app_l by assumption. rewrite updN_app_l; [reflexivity|].
   rewrite !lenN_updN; rewrite ?lenN_updN; assumption.
 Qed.
+
+Lemma subN_subN bs a L x n : x + n <= L -> subN (subN bs a L) x n = subN bs (a + x) n.
+Proof.
+  intros H. unfold subN at 1 2. rewrite dropN_takeN by lia. unfold subN.
+  rewrite dropN_dropN. unfold takeN. rewrite firstn_firstn. f_equal. lia.
+Qed.
